@@ -259,3 +259,130 @@ func ruleExtensionalAgreement(p *Program, r *Report) {
 		r.Undecided("sites", "no agreement test found in Scope.MatchedUpdate / MatchedWith", 0)
 	}
 }
+
+// R09d: a structural pattern never matches a value of another kind.  For every structural pattern type and every
+// value type outside the kinds its syntax denotes, TS-SCCP of Bind with the value's dynamic type fixed must reach no
+// return whose error can be nil.  This quantifies over all values of the type at once: a decision that looks at the
+// value's content (truthiness, count, printed form) instead of its kind leaves a success return executable.
+var patternAccepts = map[string]func(p *Program, T types.Type) bool{
+	// `[...]` denotes an array; the empty array is the empty set
+	"ArrayPattern": func(p *Program, T types.Type) bool { n := shortT(T); return n == "Array" || n == "EmptySet" },
+	// `(a: …)` denotes a tuple
+	"TuplePattern": func(p *Program, T types.Type) bool { return implementsNamed(p, T, "Tuple") },
+	// `{k: …}` denotes a dictionary; the empty dictionary is the empty set
+	"DictPattern": func(p *Program, T types.Type) bool { n := shortT(T); return n == "Dict" || n == "EmptySet" },
+	// `{…}` denotes a set of any representation
+	"SetPattern": func(p *Program, T types.Type) bool { return implementsNamed(p, T, "Set") },
+}
+
+func implementsNamed(p *Program, T types.Type, iface string) bool {
+	nt := p.NamedType("rel", iface)
+	if nt == nil {
+		return true
+	}
+	it := nt.Underlying().(*types.Interface)
+	return types.Implements(T, it)
+}
+
+// errOperandMayBeNil classifies the error operand of an executable return.
+func errOperandMayBeNil(ret *ssa.Return, idx int) (bool, string) {
+	v := RetVal(ret, idx)
+	if IsNilConst(v) {
+		return true, "returns a nil error"
+	}
+	isErrCtor := func(c *ssa.Call) bool {
+		g := c.Call.StaticCallee()
+		if g == nil || g.Pkg == nil {
+			return false
+		}
+		pp := g.Pkg.Pkg.Path()
+		return (pp == "fmt" && g.Name() == "Errorf") || (strings.HasSuffix(pp, "errors") && (g.Name() == "New" || g.Name() == "Errorf" || g.Name() == "Wrap" || g.Name() == "Wrapf" || g.Name() == "WithStack"))
+	}
+	switch x := v.(type) {
+	case *ssa.Call:
+		if isErrCtor(x) {
+			return false, ""
+		}
+	case *ssa.MakeInterface:
+		return false, ""
+	}
+	// propagated error: the return must sit on the non-nil branch of a test of that value
+	b := ret.Block()
+	for d := b; d != nil; d = d.Idom() {
+		id := d.Idom()
+		if id == nil {
+			break
+		}
+		if iff, ok := id.Instrs[len(id.Instrs)-1].(*ssa.If); ok {
+			if e, nonNil, is := ErrNonNilBranch(iff.Cond); is && e == v && id.Succs[nonNil] == d && len(d.Preds) == 1 {
+				return false, ""
+			}
+		}
+	}
+	return true, "returns an error value that is not known to be non-nil"
+}
+
+func rulePatternKindDiscrimination(p *Program, r *Report) {
+	r.Begin("R09d", "kind discrimination: for every structural pattern (array, tuple, dict, set) and every value type outside the kinds its syntax denotes, Bind — analysed with the value's dynamic type fixed (TS-SCCP, all values of the type at once) — reaches no return whose error can be nil; a decision taken on the value's content (truthiness, count, printed form) instead of its kind leaves a success return executable", 40)
+	defer r.End()
+	s := relSCCP(p, r)
+	var names []string
+	for n := range patternAccepts {
+		names = append(names, n)
+	}
+	sortStrings(names)
+	for _, pn := range names {
+		fn := p.Method("rel", pn, "Bind")
+		if fn == nil {
+			r.Undecided("anchor@"+pn, "rel."+pn+".Bind not found", 0)
+			continue
+		}
+		r.Fn(FnName(fn))
+		nres := fn.Signature.Results().Len()
+		for _, T := range p.ValueTypes() {
+			if patternAccepts[pn](p, T) {
+				continue
+			}
+			key := fmt.Sprintf("rejects@%s×%s", pn, shortT(T))
+			args := make([]AVal, len(fn.Params))
+			for i := range args {
+				args[i] = VTop
+			}
+			args[len(args)-1] = DynCtx(T)
+			res := s.Analyze(fn, args)
+			if res == nil || res.Unknown {
+				r.Undecided(key, "Bind not analysable in this context", fn.Pos())
+				continue
+			}
+			if res.Panics {
+				r.Viol(key, fmt.Sprintf("%s.Bind definitely panics on a %s value instead of reporting a failed match", pn, shortT(T)), fn.Pos())
+				continue
+			}
+			bad := ""
+			var badPos = fn.Pos()
+			for _, b := range fn.Blocks {
+				if !res.Exec[b] {
+					continue
+				}
+				ret, ok := b.Instrs[len(b.Instrs)-1].(*ssa.Return)
+				if !ok || len(ret.Results) != nres {
+					continue
+				}
+				if may, why := errOperandMayBeNil(ret, nres-1); may {
+					bad, badPos = why, ret.Pos()
+				}
+			}
+			r.Check(bad == "", key, "every executable return carries a non-nil error", fmt.Sprintf("%s.Bind can succeed on a value of type %s (%s on a path that is executable for that type): a near-miss of the wrong kind matches, and a cond arm written for another kind is taken", pn, shortT(T), bad), badPos)
+		}
+	}
+}
+
+func sortStrings(s []string) {
+	for i := 1; i < len(s); i++ {
+		for j := i; j > 0 && s[j] < s[j-1]; j-- {
+			s[j], s[j-1] = s[j-1], s[j]
+		}
+	}
+}
+
+func init() { register("C09", Rule{"R09d", rulePatternKindDiscrimination}) }
